@@ -242,6 +242,51 @@ def NoHiddenEnd : List Ev → Prop
   | .hidden r :: evs => r.endSequence = false ∧ NoHiddenEnd evs
   | _ :: evs => NoHiddenEnd evs
 
+/-! ## which instructions the encoding can express -/
+
+/-- the bytes of an inline (`DW_FORM_string`) path -/
+def pathBytes : AttrVal → Option Bytes
+  | .string p => some p
+  | _ => none
+
+/-- the instruction is what its §6.2.5 encoding means under this header: the opcode number is a
+standard opcode of this header (below `opcode_base`), operands fit their encodings, unknown
+standard opcodes carry exactly the number of ULEB operands the header announces -/
+def EncOk (h : Params) : Instr → Prop
+  | .special op => h.opcodeBase ≤ op ∧ op ≤ 255
+  | .copy => 1 < h.opcodeBase
+  | .advancePc n => 2 < h.opcodeBase ∧ n < 2 ^ 64
+  | .advanceLine i => 3 < h.opcodeBase ∧ -(2 ^ 63 : Int) ≤ i ∧ i < 2 ^ 63
+  | .setFile n => 4 < h.opcodeBase ∧ n < 2 ^ 64
+  | .setColumn n => 5 < h.opcodeBase ∧ n < 2 ^ 64
+  | .negateStatement => 6 < h.opcodeBase
+  | .setBasicBlock => 7 < h.opcodeBase
+  | .constAddPc => 8 < h.opcodeBase
+  | .fixedAddPc n => 9 < h.opcodeBase ∧ n < 2 ^ 16
+  | .setPrologueEnd => 10 < h.opcodeBase
+  | .setEpilogueBegin => 11 < h.opcodeBase
+  | .setIsa n => 12 < h.opcodeBase ∧ n < 2 ^ 64
+  | .unknownStandard0 op => 13 ≤ op ∧ op < h.opcodeBase ∧ (h.stdLens.drop (op - 1)).head? = some 0
+  | .unknownStandard1 op a => 13 ≤ op ∧ op < h.opcodeBase ∧ (h.stdLens.drop (op - 1)).head? = some 1 ∧ a < 2 ^ 64
+  | .unknownStandardN op args => 13 ≤ op ∧ op < h.opcodeBase ∧
+      ((h.stdLens.drop (op - 1)).head?.isSome = true) ∧
+      ((h.stdLens.drop (op - 1)).head?.all fun n =>
+        decide (2 ≤ n.toNat ∧ skipUlebs n.toNat args = .ok [])) = true
+  | .endSequence => True
+  | .setAddress a => a < 2 ^ (8 * h.addrSize)
+  | .defineFile f => h.version ≤ 4 ∧
+      ((pathBytes f.path).isSome = true) ∧
+      ((pathBytes f.path).all fun p => decide ((0 : UInt8) ∉ p ∧ p.length < 2 ^ 63)) = true ∧
+      f.dirIndex < 2 ^ 64 ∧
+      f.timestamp < 2 ^ 64 ∧ f.size < 2 ^ 64 ∧ f.md5 = List.replicate 16 0 ∧ f.source = none
+  | .setDiscriminator n => n < 2 ^ 64
+  | .unknownExtended op data => op ≤ 255 ∧ op ≠ 1 ∧ op ≠ 2 ∧ op ≠ 4 ∧ (op = 3 → 5 ≤ h.version) ∧
+      data.length + 1 < 2 ^ 64
+
+
+instance (h : Params) (i : Instr) : Decidable (EncOk h i) := by
+  cases i <;> unfold EncOk <;> infer_instance
+
 /-! ## the sequence clause -/
 
 /-- what `sequences()` promises about one `LineSequence` **as the code is**: resuming it yields
